@@ -57,12 +57,12 @@ var wanted = []struct {
 	{"pkg/errlog/abort.go", "errlog", []string{"HandleAbort", "Abort"}},
 	{"pkg/cisco/device.go", "cisco", []string{"LoginEnable", "LoginEnable$waitPrompt"}},
 	{"pkg/httpdevice/device.go", "httpdevice", []string{"TryReachableHTTPLogin"}},
-	{"pkg/asa/device.go", "asa", []string{"ApplyCommands", "cmd", "cmd$check", "CloseConnection",
+	{"pkg/asa/device.go", "asa", []string{"ApplyCommands", "cmd", "CloseConnection",
 		"LoadDevice", "setTerminal", "logVersion", "checkDeviceName"}},
-	{"pkg/ios/device.go", "ios", []string{"ApplyCommands", "cmd", "cmd$check", "writeMem", "prepareDevice",
-		"scheduleReload", "extendReload", "sendReloadCmd", "cancelReload", "CloseConnection",
+	{"pkg/ios/device.go", "ios", []string{"ApplyCommands", "cmd", "writeMem", "prepareDevice",
+		"sendReloadCmd", "cancelReload", "CloseConnection",
 		"LoadDevice", "setTerminal", "logVersion", "checkDeviceName"}},
-	{"pkg/linux/device.go", "linux", []string{"ApplyCommands", "cmd", "cmd$check", "writeStartupRouting",
+	{"pkg/linux/device.go", "linux", []string{"ApplyCommands", "cmd", "writeStartupRouting",
 		"writeStartupIPTables", "findIPTablesRestoreCmd", "writeStartup", "putScp", "CloseConnection",
 		"LoadDevice", "loginEnable", "logVersion", "checkDeviceName", "checkBanner", "getDeviceRoutes", "getDeviceIPTables"}},
 	{"pkg/panos/device.go", "panos", []string{"ApplyCommands", "ApplyCommands$doCmd", "ApplyCommands$commit",
@@ -80,12 +80,12 @@ func init() {
 	for _, n := range strings.Fields(`
 	Send SendCmd IssueCmd GetCmdOutput GetOutput waitPrompt WaitShort WaitLogin TryPrompt expectLog StripEcho StripStdPrompt Close
 	Expect Abort Warning HandleAbort PrintWithMarker
-	cmd check writeMem prepareDevice scheduleReload extendReload sendReloadCmd cancelReload stripReloadBanner
+	cmd writeMem prepareDevice sendReloadCmd cancelReload stripReloadBanner
 	writeStartupRouting writeStartupIPTables findIPTablesRestoreCmd writeStartup putScp Run
 	doCmd commit httpPrefixGetLog httpGet sendRequest parseResponse Unmarshal Get Do PostForm ReadAll NewRequest
 	approve compare compareDevice loadDevice getCompare applyCommands ApplyCommands GetErrUnmanaged HasChanges
 	CloseConnection showCompareInfo ApproveOrCompare getRealDevice SetStderrLog getLogFH
-	SetApprove SetCompare logHistory abort ReadFile SetLock openHistoryLog LoadConfig EvalSymlinks fileExists Read write
+	SetApprove SetCompare logHistory abort ReadFile SetLock openHistoryLog LoadConfig EvalSymlinks fileExists Read
 	recover panic
 	LoginEnable loginEnable setTerminal logVersion checkDeviceName checkBanner getDeviceRoutes getDeviceIPTables
 	TryReachableHTTPLogin login getAPIKey parseAPIKey checkHA parseResponseConfig getRawJSON ParseConfig
@@ -115,6 +115,142 @@ type walker struct {
 	closures    map[string]*ast.FuncLit // named closures found (name -> literal)
 	noCondSites map[*ast.IfStmt]bool    // synthesised from a switch: the tag was walked once
 	ftype       *ast.FuncType           // type of the function whose body is walked
+	skipReturn  *ast.ReturnStmt         // final return of an inlined helper whose caller propagates the error
+}
+
+// ---- module-local helpers outside the vocabulary of the Lean programs are inlined ----
+
+// pkgDecls: the functions and methods of the package being translated (all its files), by name;
+// a name declared twice is not resolved.
+var pkgDecls map[string]*ast.FuncDecl
+
+// constBind: parameters of a helper that is being inlined and receive a constant string
+var constBind = map[*ast.Object]string{}
+
+var inlineStack []string
+
+// deviceIO: sites that are an exchange with the device (the primitives, the API of package
+// console, and the units of the vocabulary that contain one)
+var deviceIO = map[string]bool{}
+
+func init() {
+	for _, n := range strings.Fields(`<send> <recv> Send SendCmd IssueCmd GetCmdOutput GetOutput WaitShort WaitLogin TryPrompt
+	waitPrompt expectLog cmd writeMem prepareDevice sendReloadCmd cancelReload writeStartupRouting writeStartupIPTables
+	writeStartup putScp findIPTablesRestoreCmd Run doCmd commit httpPrefixGetLog httpGet sendRequest getRawJSON getAPIKey
+	checkHA login LoginEnable loginEnable setTerminal logVersion checkDeviceName checkBanner getDeviceRoutes
+	getDeviceIPTables TryReachableHTTPLogin`) {
+		deviceIO[n] = true
+	}
+}
+
+func unexported(name string) bool {
+	return name != "" && name[0] >= 'a' && name[0] <= 'z'
+}
+
+// inlinable resolves a call to a helper that is to be inlined: a named closure of the function
+// being walked or an unexported function / method of the package, whose name is not part of the
+// vocabulary (interesting) -- by what the callee IS, not by its spelling.
+func (w *walker) inlinable(call *ast.CallExpr) (*ast.FuncType, *ast.BlockStmt, *ast.FuncDecl, string) {
+	name, prim := calleeName(call.Fun)
+	if prim || name == "" || interesting[name] || !unexported(name) {
+		return nil, nil, nil, ""
+	}
+	for _, n := range inlineStack {
+		if n == name {
+			return nil, nil, nil, "" // recursion
+		}
+	}
+	if id, ok := call.Fun.(*ast.Ident); ok {
+		if fl := w.closures[id.Name]; fl != nil {
+			return fl.Type, fl.Body, nil, name
+		}
+		if fd := pkgDecls[name]; fd != nil && fd.Recv == nil && fd.Body != nil {
+			return fd.Type, fd.Body, fd, name
+		}
+		return nil, nil, nil, ""
+	}
+	if sel, ok := call.Fun.(*ast.SelectorExpr); ok {
+		if x, ok := sel.X.(*ast.Ident); ok && x.Obj == nil {
+			return nil, nil, nil, "" // pkg.f of another package
+		}
+		if fd := pkgDecls[name]; fd != nil && fd.Recv != nil && fd.Body != nil {
+			return fd.Type, fd.Body, fd, name
+		}
+	}
+	return nil, nil, nil, ""
+}
+
+// inline walks the body of the helper in place of the call.  Constant string arguments are
+// bound to the parameters (so that a literal assembled from a parameter folds again).
+func (w *walker) inline(ft *ast.FuncType, body *ast.BlockStmt, fd *ast.FuncDecl, name string, args []ast.Expr, ctx []string, skipTail bool) bool {
+	var bound []*ast.Object
+	i := 0
+	if ft.Params != nil {
+		for _, f := range ft.Params.List {
+			for _, n := range f.Names {
+				if i < len(args) && n.Obj != nil {
+					if s, ok := constString(args[i]); ok {
+						constBind[n.Obj] = s
+						bound = append(bound, n.Obj)
+					}
+				}
+				i++
+			}
+		}
+	}
+	savedCur, savedFt, savedSkip := cur, w.ftype, w.skipReturn
+	if fd != nil {
+		cur = analyse(fd)
+	}
+	w.ftype = ft
+	w.skipReturn = nil
+	if skipTail && len(body.List) > 0 {
+		if r, ok := body.List[len(body.List)-1].(*ast.ReturnStmt); ok {
+			w.skipReturn = r
+		}
+	}
+	inlineStack = append(inlineStack, name)
+	mark := len(w.sites)
+	w.list(body.List, ctx, tFunc)
+	inlineStack = inlineStack[:len(inlineStack)-1]
+	// a helper that does not talk to the device is transparent (as it was when only listed
+	// callees were recorded): none of its sites count
+	talks := false
+	for _, st := range w.sites[mark:] {
+		if deviceIO[st.callee] {
+			talks = true
+		}
+	}
+	if !talks {
+		w.sites = w.sites[:mark]
+	}
+	cur, w.ftype, w.skipReturn = savedCur, savedFt, savedSkip
+	for _, o := range bound {
+		delete(constBind, o)
+	}
+	return talks
+}
+
+// propagation: `if err != nil { return ..., err }` for the variable err
+func isPropagation(st ast.Stmt, errName string) bool {
+	is, ok := st.(*ast.IfStmt)
+	if !ok || is.Init != nil || is.Else != nil || len(is.Body.List) != 1 {
+		return false
+	}
+	b, ok := is.Cond.(*ast.BinaryExpr)
+	if !ok || b.Op != token.NEQ || !isNil(b.Y) {
+		return false
+	}
+	id, ok := b.X.(*ast.Ident)
+	if !ok || id.Name != errName {
+		return false
+	}
+	r, ok := is.Body.List[0].(*ast.ReturnStmt)
+	if !ok || len(r.Results) == 0 {
+		return false
+	}
+	last, ok := r.Results[len(r.Results)-1].(*ast.Ident)
+	return ok && last.Name == errName
 }
 
 // funcBody walks the body of a function literal.
@@ -149,6 +285,19 @@ func constString(e ast.Expr) (string, bool) {
 		}
 	case *ast.ParenExpr:
 		return constString(v.X)
+	case *ast.Ident:
+		if v.Obj != nil {
+			if s, ok := constBind[v.Obj]; ok {
+				return s, true
+			}
+			if vs, ok := v.Obj.Decl.(*ast.ValueSpec); ok && v.Obj.Kind == ast.Con {
+				for i, n := range vs.Names {
+					if n.Name == v.Name && i < len(vs.Values) {
+						return constString(vs.Values[i]) // a named constant
+					}
+				}
+			}
+		}
 	case *ast.BinaryExpr:
 		if v.Op == token.ADD {
 			a, ok1 := constString(v.X)
@@ -167,6 +316,11 @@ func litOf(e ast.Expr) string {
 	}
 	if p, ok := e.(*ast.ParenExpr); ok {
 		return litOf(p.X)
+	}
+	if id, ok := e.(*ast.Ident); ok {
+		if s, ok := constString(id); ok {
+			return s
+		}
 	}
 	switch v := e.(type) {
 	case *ast.BasicLit:
@@ -244,7 +398,89 @@ func isNil(e ast.Expr) bool {
 	return ok && id.Name == "nil" && id.Obj == nil
 }
 
+// ---- normal form of conditionals, applied to the syntax tree before it is walked ----
+
+// canonChain: an if / else-if chain (also the one a tag switch is turned into) whose tests are
+// `x == c` with one x and pairwise distinct constants c is a dispatch over exclusive cases: the
+// order of the cases does not matter.  They are put in descending order of the constant.
+func canonChain(head *ast.IfStmt) {
+	var nodes []*ast.IfStmt
+	for n := head; n != nil; {
+		nodes = append(nodes, n)
+		next, _ := n.Else.(*ast.IfStmt)
+		n = next
+	}
+	if len(nodes) < 2 {
+		return
+	}
+	subject := ""
+	seen := map[string]bool{}
+	for _, n := range nodes {
+		b, ok := n.Cond.(*ast.BinaryExpr)
+		if n.Init != nil || !ok || b.Op != token.EQL {
+			return
+		}
+		lit, ok := b.Y.(*ast.BasicLit)
+		if !ok || seen[lit.Value] {
+			return
+		}
+		seen[lit.Value] = true
+		x := src(b.X)
+		if subject != "" && x != subject {
+			return
+		}
+		subject = x
+	}
+	type arm struct {
+		cond ast.Expr
+		body *ast.BlockStmt
+	}
+	arms := make([]arm, len(nodes))
+	for i, n := range nodes {
+		arms[i] = arm{n.Cond, n.Body}
+	}
+	sort.SliceStable(arms, func(i, j int) bool {
+		return arms[i].cond.(*ast.BinaryExpr).Y.(*ast.BasicLit).Value > arms[j].cond.(*ast.BinaryExpr).Y.(*ast.BasicLit).Value
+	})
+	for i, n := range nodes {
+		n.Cond, n.Body = arms[i].cond, arms[i].body
+	}
+}
+
+// normalizeIfs: exclusive chains in canonical order; `if a && b {T}` (no else) as
+// `if a { if b {T} }`.
+func normalizeIfs(body *ast.BlockStmt) {
+	if body == nil {
+		return
+	}
+	ast.Inspect(body, func(n ast.Node) bool {
+		is, ok := n.(*ast.IfStmt)
+		if !ok {
+			return true
+		}
+		canonChain(is)
+		for is.Else == nil {
+			c := is.Cond
+			for {
+				if p, ok := c.(*ast.ParenExpr); ok {
+					c = p.X
+					continue
+				}
+				break
+			}
+			b, ok := c.(*ast.BinaryExpr)
+			if !ok || b.Op != token.LAND {
+				break
+			}
+			is.Cond = b.X
+			is.Body = &ast.BlockStmt{List: []ast.Stmt{&ast.IfStmt{Cond: b.Y, Body: is.Body}}}
+		}
+		return true
+	})
+}
+
 func analyse(fd *ast.FuncDecl) *fnInfo {
+	normalizeIfs(fd.Body)
 	fi := &fnInfo{fd: fd, assigns: map[*ast.Object]int{}, def: map[*ast.Object]ast.Expr{},
 		nilcmp: map[*ast.Object]bool{}, lastOfCall: map[*ast.Object]bool{}, multiLast: map[*ast.Object]bool{},
 		errType: map[*ast.Object]bool{}, closure: map[*ast.Object]bool{}, uses: map[*ast.Object]int{}, deref: map[*ast.Object]bool{}, boolUse: map[*ast.Object]bool{}}
@@ -696,6 +932,8 @@ func (w *walker) expr(e ast.Expr, ctx []string) {
 			}
 		} else if interesting[name] {
 			w.add(name, argLits(v.Args), ctx)
+		} else if ft, body, fd, n := w.inlinable(v); body != nil {
+			w.inline(ft, body, fd, n, v.Args, ctx, false)
 		}
 		for _, fl := range funcArgs {
 			w.funcBody(fl, append(ctx, "func"))
@@ -780,12 +1018,64 @@ func (w *walker) emptyBranch(st ast.Stmt) bool {
 	if terminates(st) {
 		return false
 	}
-	probe := &walker{closures: map[string]*ast.FuncLit{}, noCondSites: w.noCondSites, ftype: w.ftype}
+	cl := map[string]*ast.FuncLit{}
+	for k, v := range w.closures {
+		cl[k] = v
+	}
+	probe := &walker{closures: cl, noCondSites: w.noCondSites, ftype: w.ftype}
 	ex := *explain
 	*explain = false
 	probe.branch(st, nil, tNone)
 	*explain = ex
-	return len(probe.sites) == 0 && len(probe.closures) == 0
+	return len(probe.sites) == 0 && len(probe.closures) == len(w.closures)
+}
+
+// switchToIf: the cases of a switch as an if / else-if chain (default last), exclusive constant
+// cases in canonical order; nil if there is nothing to walk.  The tag has been walked.
+func (w *walker) switchToIf(v *ast.SwitchStmt) ast.Stmt {
+	var def *ast.CaseClause
+	var chain, last *ast.IfStmt
+	for _, cc := range v.Body.List {
+		c := cc.(*ast.CaseClause)
+		if c.List == nil {
+			def = c
+			continue
+		}
+		var label ast.Expr
+		for _, e := range c.List {
+			alt := e
+			if v.Tag != nil {
+				alt = &ast.BinaryExpr{X: v.Tag, Op: token.EQL, Y: e}
+			}
+			if label == nil {
+				label = alt
+			} else {
+				label = &ast.BinaryExpr{X: label, Op: token.LOR, Y: alt}
+			}
+		}
+		is := &ast.IfStmt{Cond: label, Body: &ast.BlockStmt{List: c.Body}}
+		if w.noCondSites == nil {
+			w.noCondSites = map[*ast.IfStmt]bool{}
+		}
+		w.noCondSites[is] = true
+		if chain == nil {
+			chain = is
+		} else {
+			last.Else = is
+		}
+		last = is
+	}
+	if chain == nil {
+		if def != nil {
+			return &ast.BlockStmt{List: def.Body}
+		}
+		return nil
+	}
+	if def != nil {
+		last.Else = &ast.BlockStmt{List: def.Body}
+	}
+	canonChain(chain)
+	return chain
 }
 
 // list walks a statement list.  `if c {T}; K...` where T always leaves is `if c {T} else {K...}`.
@@ -798,6 +1088,16 @@ func (w *walker) list(l []ast.Stmt, ctx []string, tl tail) {
 	}
 	for i, st := range l {
 		last := i == len(l)-1
+		if sw, ok := st.(*ast.SwitchStmt); ok && sw.Init == nil {
+			// a switch is its if / else-if chain (so that what follows it is treated alike)
+			if sw.Tag != nil {
+				w.expr(sw.Tag, ctx)
+			}
+			st = w.switchToIf(sw)
+			if st == nil {
+				continue
+			}
+		}
 		if is, ok := st.(*ast.IfStmt); ok && !last {
 			rest := &ast.BlockStmt{List: l[i+1:]}
 			if w.emptyBranch(is.Else) && terminates(is.Body) {
@@ -807,6 +1107,35 @@ func (w *walker) list(l []ast.Stmt, ctx []string, tl tail) {
 			if w.emptyBranch(is.Body) && terminates(is.Else) {
 				w.ifStmt(is, rest, is.Else, ctx, tl)
 				return
+			}
+			// one branch leaves, the other does not: what follows belongs to the other branch
+			// (`switch … {case a: return x}; return y` = the if chain with `return y` as its else)
+			if terminates(is.Body) && !terminates(is.Else) {
+				w.ifStmt(is, is.Body, &ast.BlockStmt{List: append([]ast.Stmt{is.Else}, l[i+1:]...)}, ctx, tl)
+				return
+			}
+			if terminates(is.Else) && !terminates(is.Body) {
+				w.ifStmt(is, &ast.BlockStmt{List: append([]ast.Stmt{is.Body}, l[i+1:]...)}, is.Else, ctx, tl)
+				return
+			}
+		}
+		// `x, err := helper(..); if err != nil { return .., err }`: the error returns of the
+		// inlined helper are this function's, its final return and the propagation are not sites
+		if as, ok := st.(*ast.AssignStmt); ok && !last && len(as.Rhs) == 1 && len(as.Lhs) >= 1 {
+			if call, ok := as.Rhs[0].(*ast.CallExpr); ok {
+				if id, ok := as.Lhs[len(as.Lhs)-1].(*ast.Ident); ok && isPropagation(l[i+1], id.Name) {
+					if ft, body, fd, n := w.inlinable(call); body != nil {
+						mark := len(w.sites)
+						for _, a := range call.Args {
+							w.expr(a, ctx)
+						}
+						if w.inline(ft, body, fd, n, call.Args, ctx, true) {
+							w.list(l[i+2:], ctx, tl)
+							return
+						}
+						w.sites = w.sites[:mark]
+					}
+				}
 			}
 		}
 		t := tNone
@@ -960,6 +1289,24 @@ func (w *walker) stmt(st ast.Stmt, ctx []string, tl tail) {
 		if len(v.Results) == 0 && tl == tFunc {
 			return // falling off the end of the function: the same
 		}
+		if v == w.skipReturn {
+			return // final return of an inlined helper whose caller propagates the error
+		}
+		if len(v.Results) == 1 {
+			if call, ok := v.Results[0].(*ast.CallExpr); ok {
+				if ft, body, fd, n := w.inlinable(call); body != nil {
+					// `return helper(..)`: the helper's returns are this function's
+					mark := len(w.sites)
+					for _, a := range call.Args {
+						w.expr(a, ctx)
+					}
+					if w.inline(ft, body, fd, n, call.Args, ctx, false) {
+						return
+					}
+					w.sites = w.sites[:mark] // a helper that does not talk to the device: an ordinary return
+				}
+			}
+		}
 		var lits []string
 		for i, r := range v.Results {
 			w.expr(r, ctx)
@@ -992,48 +1339,9 @@ func (w *walker) stmt(st ast.Stmt, ctx []string, tl tail) {
 		if v.Tag != nil {
 			w.expr(v.Tag, ctx)
 		}
-		// cases as an if / else-if chain; default last
-		var def *ast.CaseClause
-		var chain, last *ast.IfStmt
-		for _, cc := range v.Body.List {
-			c := cc.(*ast.CaseClause)
-			if c.List == nil {
-				def = c
-				continue
-			}
-			var label ast.Expr
-			for _, e := range c.List {
-				alt := e
-				if v.Tag != nil {
-					alt = &ast.BinaryExpr{X: v.Tag, Op: token.EQL, Y: e}
-				}
-				if label == nil {
-					label = alt
-				} else {
-					label = &ast.BinaryExpr{X: label, Op: token.LOR, Y: alt}
-				}
-			}
-			is := &ast.IfStmt{Cond: label, Body: &ast.BlockStmt{List: c.Body}}
-			if w.noCondSites == nil {
-				w.noCondSites = map[*ast.IfStmt]bool{}
-			}
-			w.noCondSites[is] = true
-			if chain == nil {
-				chain = is
-			} else {
-				last.Else = is
-			}
-			last = is
-		}
-		if chain == nil {
-			if def != nil {
-				w.list(def.Body, ctx, tl)
-			}
-		} else {
-			if def != nil {
-				last.Else = &ast.BlockStmt{List: def.Body}
-			}
-			w.ifStmt(chain, chain.Body, chain.Else, ctx, tl)
+		st2 := w.switchToIf(v)
+		if st2 != nil {
+			w.stmt(st2, ctx, tl)
 		}
 	case *ast.BlockStmt:
 		w.block(v, ctx, tl)
@@ -1094,15 +1402,35 @@ func main() {
 		if err != nil {
 			fail("%v", err)
 		}
+		// every function of the package (all its files): a function may move to another file
 		decls := map[string]*ast.FuncDecl{}
-		for _, d := range f.Decls {
-			if fd, ok := d.(*ast.FuncDecl); ok {
-				if _, dup := decls[fd.Name.Name]; dup {
-					fail("%s: function name %s is not unique", wf.file, fd.Name.Name)
+		dup := map[string]bool{}
+		files, _ := filepath.Glob(filepath.Join(filepath.Dir(path), "*.go"))
+		sort.Strings(files)
+		for _, fn := range files {
+			if strings.HasSuffix(fn, "_test.go") {
+				continue
+			}
+			pf := f
+			if fn != path {
+				var err error
+				if pf, err = parser.ParseFile(fset, fn, nil, 0); err != nil {
+					fail("%v", err)
 				}
-				decls[fd.Name.Name] = fd
+			}
+			for _, d := range pf.Decls {
+				if fd, ok := d.(*ast.FuncDecl); ok {
+					if _, twice := decls[fd.Name.Name]; twice {
+						dup[fd.Name.Name] = true
+					}
+					decls[fd.Name.Name] = fd
+				}
 			}
 		}
+		for n := range dup {
+			delete(decls, n) // two methods of one name: not resolved by name
+		}
+		pkgDecls = decls
 		done := map[string][]site{}
 		var get func(name string) []site
 		get = func(name string) []site {
@@ -1112,7 +1440,10 @@ func main() {
 			outer, inner, isClosure := strings.Cut(name, "$")
 			fd := decls[outer]
 			if fd == nil || fd.Body == nil {
-				fail("%s: function %s not found", wf.file, outer)
+				// not there (renamed, merged into its callers, ...): no fact under this name; what
+				// it did shows in the skeletons of its callers
+				done[outer] = nil
+				return nil
 			}
 			cur = analyse(fd)
 			w := &walker{closures: map[string]*ast.FuncLit{}, ftype: fd.Type}
@@ -1129,20 +1460,19 @@ func main() {
 			for _, n := range cn {
 				cw := &walker{closures: map[string]*ast.FuncLit{}, ftype: w.closures[n].Type}
 				cw.block(w.closures[n].Body, nil, tFunc)
-				if len(cw.closures) != 0 {
-					fail("%s: nested named closures in %s$%s", wf.file, outer, n)
-				}
 				done[outer+"$"+n] = cw.sites
-			}
-			if isClosure {
-				if _, ok := done[name]; !ok {
-					fail("%s: closure %s not found in %s", wf.file, inner, outer)
+				if cw.sites == nil {
+					done[outer+"$"+n] = []site{}
 				}
 			}
+			_, _ = inner, isClosure
 			return done[name]
 		}
 		for _, fn := range wf.funcs {
 			sites := get(fn)
+			if sites == nil {
+				continue
+			}
 			lname := wf.pkg + "_" + strings.ReplaceAll(fn, "$", "_")
 			names = append(names, lname)
 			fmt.Fprintf(&b, "def %s : List Site := [\n", lname)
@@ -1154,20 +1484,6 @@ func main() {
 				fmt.Fprintf(&b, "  ⟨%s, %s, %s⟩%s\n", leanStr(s.callee), leanList(s.lits), leanList(s.ctx), sep)
 			}
 			b.WriteString("]\n\n")
-		}
-		// closures that exist in the source but are not modelled would escape the tie: list them
-		var all []string
-		for n := range done {
-			all = append(all, n)
-		}
-		sort.Strings(all)
-		for _, fn := range wf.funcs {
-			outer, _, _ := strings.Cut(fn, "$")
-			for _, n := range all {
-				if strings.HasPrefix(n, outer+"$") && !contains(wf.funcs, n) {
-					fail("%s: closure %s is not in the list of functions of interest", wf.file, n)
-				}
-			}
 		}
 	}
 	fmt.Fprintf(&b, "def allNames : List String := %s\n\n", leanList(names))
